@@ -121,6 +121,9 @@ def run(chk):
             zeros(so.fields['stored_params'].fields['eq_params']['a'], "initial tracked history")
             if so.fields['stored_params'].fields['nn_params'] is not None:
                 raise Violation("initial tracked history", "history allocated for the untracked nn_params", "None")
+            if so.fields['stored_params'].fields['eq_params'].get('b') is not None:
+                raise Violation("initial tracked history", "history allocated for the untracked equation parameter b "
+                                                           "(tracked_params = {a: True, b: None})", "None")
             zeros(crit, "initial validation criterion history")
             if not same(loss, A.loss) or val != A.val0:
                 raise Violation("initial loss / validation", f"{loss} {val}", "the arguments of solve")
